@@ -126,7 +126,9 @@ class ResidualModel(nn.Module):
     def plist(self):
         return [getattr(self, f"p{i}") for i in range(len(self.kinds))]
 
-    def forward(self, *data):
+    def forward(self, *data, **named):
+        if named:           # the optimisers also accept the model input as a dict of keyword arguments
+            data = tuple(named[f"d{i}"] for i in range(len(named)))
         return self.fn(self.plist(), data)
 
 
